@@ -204,7 +204,11 @@ def job_identities(name, d, tier):
             out.append(prove(base + "/default spectrum is evaluated at |k|", C, dflt[1] == z3.If(k.e >= 0, k.e, -k.e), T, witness_vars=wv, replay=rb, pairwise=False))
         ref = ref_density(name, k, l / s, d, opt)
         if ref is not None:
-            out.append(prove(base + "/spectral_density==transform-pair table", C + ref_side(name, d, opt), lift(sd) == lift(ref), T, witness_vars=wv, replay=rb, pairwise=False))
+            # first as pure arithmetic + congruence (special functions as opaque symbols), then with the axiom pack
+            r0 = prove(base + "/spectral_density==transform-pair table", C + ref_side(name, d, opt), lift(sd) == lift(ref), min(T, 20), witness_vars=wv, replay=rb, instantiate=False)
+            if r0["status"] != "unsat":
+                r0 = prove(base + "/spectral_density==transform-pair table", C + ref_side(name, d, opt), lift(sd) == lift(ref), T, witness_vars=wv, replay=rb, pairwise=False)
+            out.append(r0)
     if not n_ok:
         out.append(rec(tag + "/reach", "vacuous"))
     return out
@@ -379,6 +383,35 @@ def _num_ft(model, k, d):
     return integrate.quad(f, 0, 60 * model.len_scale, limit=800)[0]
 
 
+def _table_num(name, k, lr, d, o):
+    """the transform-pair table evaluated numerically (None outside the table / inside the documented JBessel tweak)"""
+    import numpy as np
+    from scipy import special as sp
+
+    if name == "Gaussian":
+        return (lr / 2 / np.sqrt(np.pi)) ** d * np.exp(-((k * lr / 2) ** 2))
+    if name == "Exponential":
+        return lr**d * sp.gamma((d + 1) / 2) / (np.pi * (1 + (k * lr) ** 2)) ** ((d + 1) / 2)
+    if name == "Matern":
+        nu, x = o["nu"], (k * lr) ** 2
+        if nu > 20:
+            return (lr / np.sqrt(np.pi)) ** d * np.exp(-x)
+        return (lr / np.sqrt(np.pi)) ** d * np.exp(sp.gammaln(nu + d / 2) - sp.gammaln(nu)) * nu ** (-d / 2) * (1 + x / nu) ** (-(nu + d / 2))
+    if name == "Integral":
+        nu = o["nu"]
+        fac, x, sh = (lr / 2 / np.sqrt(np.pi)) ** d, (k * lr / 2) ** 2, (nu + d) / 2
+        return fac * nu / (nu + d) if k == 0 else 0.5 * nu * fac / x**sh * sp.gamma(sh) * sp.gammainc(sh, x)
+    if name == "HyperSpherical":
+        g = sp.gamma(d / 2 + 1)
+        return (lr / 4) ** d / g / np.sqrt(np.pi) ** d if k == 0 else g / np.sqrt(np.pi) ** d * sp.jv(d / 2, k * lr / 2) ** 2 / k**d
+    if name == "JBessel":
+        nu = o["nu"]
+        if sp.gamma(nu - d / 2 + 1) > 100:
+            return None
+        return (lr / np.sqrt(np.pi)) ** d * sp.gamma(nu + 1) / sp.gamma(nu - d / 2 + 1) * (1 - (k * lr) ** 2) ** (nu - d / 2) if k < 1 / lr else 0.0
+    return None
+
+
 def sps_gamma(x):
     from scipy import special
 
@@ -426,10 +459,14 @@ def replay_identities(inputs):
         exp_ppf = name in ("Gaussian", "Exponential") and d in (1, 2)
         if (bool(m.has_cdf), bool(m.has_ppf)) != (exp_cdf, exp_ppf) or [f is not None for f in m.dist_func] != [True, exp_cdf, exp_ppf]:
             bad.append("has_cdf / has_ppf / dist_func")
-        if name in ("Gaussian", "Exponential", "Matern", "Integral", "HyperSpherical", "JBessel") and not (name == "JBessel" and sps_gamma(opt["nu"] - d / 2 + 1) > 100):
-            num = _num_ft(m, k, d)
-            if not np.isclose(sd, num, rtol=2e-3, atol=1e-6 * float(m.spectral_density(np.array([0.0]))[0])):
-                bad.append(f"spectral_density({k}) {sd} != numerical Fourier transform of the correlation {num}")
+        tab = _table_num(name, k, l / s, d, opt)
+        if tab is not None:
+            if not np.isclose(sd, tab, rtol=1e-7, atol=1e-12 * abs(tab) + 1e-300):
+                bad.append(f"spectral_density({k}) {sd} != transform-pair table {tab}")
+            if name in ("Gaussian", "Exponential", "Matern", "Integral"):  # (quadrature of the oscillating Bessel-type correlations is not reliable)
+                num = _num_ft(m, k, d)
+                if not np.isclose(sd, num, rtol=2e-3, atol=1e-6 * float(m.spectral_density(np.array([0.0]))[0])):
+                    bad.append(f"spectral_density({k}) {sd} != numerical Fourier transform of the correlation {num}")
         else:
             # numerical default: the Hankel transform must be the one of the model's correlation in the (2 pi)^-d convention
             if type(m).spectral_density is gs.CovModel.spectral_density:
